@@ -51,7 +51,11 @@ func randAsg(r *rand.Rand, ex *symex.Explorer, ring bool) map[string]string {
 			asg[n] = fmt.Sprintf("f32:%08x", math.Float32bits(f))
 		case k == "f64":
 			var f float64
-			if ring || r.Intn(3) > 0 {
+			if ring {
+				// tenths: not representable in float32, so a float64 computation that takes a detour
+				// through single precision misses the native comparison's 1e-9 tolerance
+				f = float64(r.Intn(17)-8) / 10
+			} else if r.Intn(3) > 0 {
 				f = float64(r.Intn(9)-4) / 2
 			} else {
 				f = f64Pool[r.Intn(len(f64Pool))]
